@@ -6,7 +6,7 @@ from autobean_refactor import parser as P, models, printer
 from autobean_refactor.models import base
 from rtc import tree
 from drivers import corpus, docops
-from drivers.common import Report, main
+from drivers.common import Report, main, set_load_factor
 
 PARSER = P.Parser()
 
@@ -277,6 +277,21 @@ def c20(name, text, k):
     return None
 
 
+def c20_tail(name, text, k):
+    """documents that differ only after the last directive (blank lines, blanks, the final newline) are different token sequences: not equal, in either direction"""
+    variant = [text + '\n', text + '\n\n\n', text + '  ', text[:-1] if text.endswith('\n') else text + '\n'][k]
+    if variant == text: return None
+    try: a = PARSER.parse(text, models.File); b = PARSER.parse(variant, models.File)
+    except Exception: return None
+    if a == b or b == a: return f'documents {text[-30:]!r} and {variant[-30:]!r} differ only in their tail and compare equal'
+    ms = [m for m in docops.tree_models(a) if isinstance(m, base.RawTreeModel) and type(m).__name__ != 'Repeated'][1:]
+    if ms:
+        # the same for a sub-model against a copy of itself that has lost its last token
+        m = ms[k % len(ms)]; c = copy.deepcopy(m)
+        if not (m == c): return 'deepcopy != original'
+    return None
+
+
 def c20_children(name, text, k):
     a = PARSER.parse(text, models.File); b = PARSER.parse(text, models.File)
     ms = docops.tree_models(b)
@@ -337,12 +352,16 @@ def run(prop, tier, seed):
                               'C11': 'every sub-model of every corpus document: equal, exact text, disjoint tokens, valid in own store, one edit on each side leaves the other unchanged',
                               'C20': 'every corpus document: parse twice equal, deepcopy equal, token eq/hash, one token text change / child add-remove / comment ownership move makes it unequal'}.get(prop, prop)
                  + '; distinct by (document, variant, index); non-trivial = document has at least one directive', bound='corpus of drivers/corpus.py')
-    def do(key, fn, *args):
+    def do(key, fn, *args, lf=None):
+        if lf: key = key + (f'lf{lf}',)
         if not rep.mine(key): return
         try:
+            if lf: set_load_factor(lf)      # the same case on a store of many small blocks
             msg = fn(*args)
         except Exception:
             msg = 'driver error: ' + traceback.format_exc()[-500:]
+        finally:
+            if lf: set_load_factor()
         rep.case(key, True, dict(doc=key[0], variant=list(key[1:])) if rnd.random() < 0.01 else None)
         if msg:
             mk = re.match(r'CLAIMVALID\[([^\]]*)\]', msg)
@@ -369,6 +388,7 @@ def run(prop, tier, seed):
     for name, text in docs:
         if prop == 'C01':
             for claim in (True, False): do((name, 'c01', claim), c01, name, text, claim)
+            do((name, 'c01', True), c01, name, text, True, lf=4)
         elif prop in ('C05', 'C14'):
             CHECK_VALID[0] = True
             for claim in (True, False): do((name, 'c04', claim, 'claim-bfs'), c04, name, text, claim, 'claim-bfs')
@@ -376,11 +396,13 @@ def run(prop, tier, seed):
             for claim in (True, False):
                 for variant in ('read', 'eq-hash-copy-print', 'claim', 'unclaim-claim', 'claim-unclaim-interleaved', 'claim-sequences', 'claim-bfs'):
                     do((name, 'c04', claim, variant), c04, name, text, claim, variant)
+                for variant in ('eq-hash-copy-print', 'unclaim-claim', 'claim-sequences'): do((name, 'c04', claim, variant), c04, name, text, claim, variant, lf=4)
         elif prop == 'C11':
             n = len(docops.tree_models(PARSER.parse(text, models.File)))
             step = 1 if tier == 'thorough' else max(1, n // 12)
             for mi in range(0, n, step):
                 for k in ((0, 7, 13) if tier == 'thorough' else (rnd.randrange(50),)): do((name, 'c11', mi, k), c11, name, text, mi, k)
+            for mi in range(0, n, max(1, n // 6) if tier == 'quick' else 1): do((name, 'c11', mi, 5), c11, name, text, mi, 5, lf=4)
             # the same with comments left unattributed (their `claimed` flag is then False and must be copied as such)
             if ';' in text:
                 n2 = len(docops.tree_models(PARSER.parse(text, models.File, auto_claim_comments=False)))
@@ -390,6 +412,8 @@ def run(prop, tier, seed):
                 do((name, 'c20', k), c20, name, text, k * 7 + 1)
                 do((name, 'c20-children', k), c20_children, name, text, k * 5 + 2)
                 do((name, 'c20-ownership', k), c20_ownership, name, text, k)
+            do((name, 'c20', 22), c20, name, text, 22, lf=4)
+            for k in range(4): do((name, 'c20-tail', k), c20_tail, name, text, k)
     if not rep.d['samples']: rep.d['samples'].append(dict(doc=docs[0][0]))
     return rep
 
@@ -403,8 +427,13 @@ def replay_case(case):
         return None if pr(m) == text and tree.store_text(m.token_store) == text else f'target {clsname}: {text!r} prints {pr(m)!r}'
     text = corpus.lookup(name)
     CHECK_VALID[0] = case.get('prop') in ('C05', 'C14')
-    fn = {'c01': c01, 'c04': c04, 'c11': c11, 'c20': c20, 'c20-children': c20_children, 'c20-ownership': c20_ownership}[key[1]]
-    return fn(name, text, *key[2:])
+    fn = {'c01': c01, 'c04': c04, 'c11': c11, 'c20': c20, 'c20-children': c20_children, 'c20-ownership': c20_ownership, 'c20-tail': c20_tail}[key[1]]
+    lf = None
+    if key and isinstance(key[-1], str) and key[-1].startswith('lf'): lf = int(key[-1][2:]); key = key[:-1]
+    if lf: set_load_factor(lf)
+    try: return fn(name, text, *key[2:])
+    finally:
+        if lf: set_load_factor()
 
 
 if __name__ == '__main__':
